@@ -219,7 +219,7 @@ def rules(ctx):
                 gok, msg, orient_ok = _guarded_update_ok(ctx, fn, a, cand, selfn)
                 ctx.inst('R13.3', fn, a, orient_ok, msg)
                 if gok:
-                    owners = [o for t, pol, o in g.edge_dominators(a) if pol]
+                    owners = [o for t, pol, o in g.edge_dominators(a)]      # the whole guard chain (if / elif) of the update
                     if any(every_path_passes([o]) for o in owners):
                         ok = True
                     else:
@@ -312,7 +312,7 @@ def rules(ctx):
                         upd.append(a)
                 # the if-statement owning the update must dominate the raw op
                 for a in upd:
-                    owners = [o for t, pol, o in g.edge_dominators(a) if pol]
+                    owners = [o for t, pol, o in g.edge_dominators(a)]      # the whole guard chain (if / elif) of the update
                     if any(g.dominates([o], s) and o is not s for o in owners):
                         # and the raw op must be performed with an AnnealResults
                         # operand (whose .best is maintained): isinstance guard
